@@ -1,6 +1,7 @@
 CONSTANTS
   Ext <- AllExtensions
   Conv = "empty"
+  Variants = FALSE
   Syntax <- SyntaxAsExt
   Defects = FALSE
   Mode = "sim"
